@@ -6,7 +6,7 @@ from pydiffx.dom import DiffX
 from pydiffx.errors import BaseDiffXError
 
 from mc import spec
-from mc.alphabets import encodable, misaligned
+from mc.alphabets import encodable, misaligned, VENDOR_DIFF
 from mc.domsnap import snap, fsnap, SAMPLE_DIFF
 from mc.explore import Acc, freeze
 from mc.observe import site_of
@@ -24,7 +24,8 @@ METAS = [None, {'a': 'x'}, {'k': {'sub': [1, 'two', {'t': None}]}, 'z': 'é'},
 FMETAS = [{'path': 'f'}, {'path': 'g', 'revision': {'old': 'a', 'new': 'b'}},
           None, {}]
 DIFFS = [None, b'a\n', b'a', SAMPLE_DIFF, b'a\r\nb\r\n', b'a\r\nb\n',
-         b'\x00\xff\n', b'#..file:\n', b'', 'x\n'.encode('utf-16')]
+         b'\x00\xff\n', b'#..file:\n', b'', 'x\n'.encode('utf-16'),
+         VENDOR_DIFF]
 ENCS = [None, 'utf-8', 'utf-16', 'latin-1', 'utf-32-be']
 MAIN_ENCS = ['utf-8', 'utf-16', 'latin-1']
 INDENTS = [None, 0, 4, 2, 7]
